@@ -280,6 +280,9 @@ Embed(m, c1, e2) ==
     [] m = "safenest" -> Contains(N("idx", "", "", <<X, Call("endsWith", "endswith", <<X, N("str", "", "a", <<>>)>>)>>), e1)
     [] m = "xidx" -> N("prop", "y", "y", <<N("idx", "", "", <<X, e1>>)>>)
     [] m = "fdot" -> N("prop", "y", "y", <<Call("fromJSON", "fromjson", <<Call("toJSON", "tojson", <<e1>>)>>)>>)
+       \* a logical operator directly under another one (expr_sema.go types these with narrowing)
+    [] m = "andor" -> Logic("||", Paren(Logic("&&", e1, X)), X)
+    [] m = "orand" -> Logic("&&", Paren(Logic("||", X, e1)), X)
     [] m = "paren" -> Paren(e1)
     [] m = "pmid" -> ApplySeg(c1[Len(c1)], Paren(Build(c1, Len(c1) - 1, e2)), e2)
     [] m = "notpar" -> N("not", "", "!", <<Paren(Cmp(e1, X))>>)
